@@ -285,6 +285,8 @@ def main(argv):
         # unlisted (or listed but its witness no longer reproduces): violation
         w = witness.search(pid, o, tier, seed)
         safe = re.sub(r'[^A-Za-z0-9_.+-]+', '_', o['name'])[:80]
+        if safe != o['name']:   # keep distinct obligations in distinct files
+            safe += '-' + hashlib.sha1(o['name'].encode('utf-8')).hexdigest()[:8]
         rp = os.path.join(ROOT, 'replays', '%s-%s.json' % (pid, safe))
         json.dump({'property': pid, 'obligation': o['name'], 'unit': o.get('unit'), 'function': o.get('fn'),
                    'verus_message': o['message'], 'verus_output': o['rendered'], 'repo_sites': o['repo_sites'],
